@@ -220,6 +220,7 @@ func runSnapfail(rep *Report, replay string) {
 				w := &failWriter{failAtCall: f.call, budget: f.budget, forever: f.forever}
 				column.VerifSetYield(hook(w))
 				fdB, tmpB := countFds(), countTemps()
+				gorB := settledGoroutines(-1)
 				var err error
 				sdone := make(chan struct{})
 				go func() { err = c.Snapshot(w); close(sdone) }()
@@ -235,6 +236,7 @@ func runSnapfail(rep *Report, replay string) {
 				}
 				column.VerifSetYield(nil)
 				fdA, tmpA := countFds(), countTemps()
+				gorA := settledGoroutines(gorB)
 				failed := w.failures > 0
 				rep.count(fmt.Sprintf("%s:writer-failed=%v", shapes[si], failed))
 				switch {
@@ -254,7 +256,7 @@ func runSnapfail(rep *Report, replay string) {
 				}
 				// the model's prediction for this fault class
 				lines = append(lines, fmt.Sprintf("snapres 0 0 %d %d", b2i(w.failedInState), b2i(w.failedInCopy)))
-				want = append(want, fmt.Sprintf("rec=%v dfd=%d dtemp=%d err=%v", c.VerifRecording(), fdA-fdB, tmpA-tmpB, err != nil))
+				want = append(want, fmt.Sprintf("rec=%v dfd=%d dtemp=%d dgo=%d err=%v", c.VerifRecording(), fdA-fdB, tmpA-tmpB, gorA-gorB, err != nil))
 				if failed {
 					rep.DistinctNontrivial++
 				}
@@ -340,7 +342,7 @@ func runSnapfail(rep *Report, replay string) {
 			addV(fmt.Sprintf("[%s] a refused concurrent snapshot disturbed the running one or leaked (outer err=%v, fd %+d, temp %+d, recorder=%v)", shapes[si], oerr, countFds()-fdB, countTemps()-tmpB, c.VerifRecording()), nil)
 		}
 		lines = append(lines, "snapres 1 0 0 0")
-		want = append(want, fmt.Sprintf("rec=%v dfd=%d dtemp=%d err=%v", true, 0, 0, inner != nil))
+		want = append(want, fmt.Sprintf("rec=%v dfd=%d dtemp=%d dgo=%d err=%v", true, 0, 0, 0, inner != nil))
 		// goroutines: a snapshot that leaves a running goroutine (and its buffers) behind every time exhausts the
 		// process after some thousands of snapshots — "the collection keeps working" does not survive that
 		time.Sleep(20 * time.Millisecond)
@@ -424,6 +426,20 @@ func runSnapfail(rep *Report, replay string) {
 type countLogger struct{ n int64 }
 
 func (l *countLogger) Append(commit.Commit) error { atomic.AddInt64(&l.n, 1); return nil }
+
+// settledGoroutines: the number of goroutines once those that are merely on their way out have gone (a goroutine whose
+// function has returned is still counted for an instant); `expect` < 0: just let things settle briefly
+func settledGoroutines(expect int) int {
+	n := runtime.NumGoroutine()
+	for i := 0; i < 50 && n != expect; i++ {
+		if expect < 0 && i >= 2 {
+			break
+		}
+		time.Sleep(200 * time.Microsecond)
+		n = runtime.NumGoroutine()
+	}
+	return n
+}
 
 func b2i(b bool) int {
 	if b {
